@@ -35,6 +35,21 @@ def is_scalar_param(arg):
     return False
 
 
+def _used_as_array(fnode, name):
+    """the parameter is written through (p[...] = v, p += v, out=p) or annotated as an array: whatever its name says, it is storage the caller can see"""
+    for a in fnode.args.args + fnode.args.kwonlyargs:
+        if a.arg == name and a.annotation is not None and 'ndarray' in norm(a.annotation):
+            return True
+    for n in ast.walk(fnode):
+        if isinstance(n, ast.Subscript) and isinstance(n.ctx, (ast.Store, ast.Del)) and isinstance(n.value, ast.Name) and n.value.id == name:
+            return True
+        if isinstance(n, ast.AugAssign) and isinstance(n.target, ast.Name) and n.target.id == name:
+            return True
+        if isinstance(n, ast.keyword) and n.arg == 'out' and isinstance(n.value, ast.Name) and n.value.id == name:
+            return True
+    return False
+
+
 class Alias(Domain):
     name = 'alias'
 
@@ -62,7 +77,9 @@ class Alias(Domain):
     def param(self, I, func, name, index):
         for a in func.node.args.args + func.node.args.kwonlyargs:
             if a.arg == name:
-                return FRESH if is_scalar_param(a) else frozenset([name])
+                if is_scalar_param(a) and not _used_as_array(func.node, name):
+                    return FRESH
+                return frozenset([name])
         return frozenset([name])
 
     def global_name(self, I, name):
